@@ -601,6 +601,19 @@ func (b *reBox) Get() int64 { return b.V }
 
 type reHolder struct{ In *reBox }
 
+func mkTwinA(v int64) interface{} {
+	type twin struct{ A, B int64 }
+	return &twin{A: v, B: v + 1}
+}
+
+func mkTwinB(v int64) interface{} {
+	type twin struct {
+		Pad  string
+		B, A int64
+	}
+	return &twin{B: v + 1, A: v}
+}
+
 // RunC03Reinject: inject, call/read, remove, call/read (must fail), inject another object
 // under the same name (with and without removing the old one first).
 func RunC03Reinject(k *fw.Case) {
@@ -614,6 +627,7 @@ rule "fn" salience 2 begin return getv() end
 rule "t" salience 1 begin return Holder.In.Get() end
 rule "w" salience 0 begin Obj.V = Obj.V + 1000 return Obj.V end
 rule "pw" salience -1 begin Cnt = 5 Cnt2 := 6 end
+rule "tw" salience -4 begin Twin.A = Twin.A + 100 return Twin.B end
 rule "mid" salience -2 begin Late = 7 injlate() return Late end
 rule "midarg" salience -3 begin Late2 = 7 seen = reidn(Late2) injlate2() return reidn(Late2) + seen end
 `
@@ -686,6 +700,18 @@ rule "midarg" salience -3 begin Late2 = 7 seen = reidn(Late2) injlate2() return 
 	if *cnt != 5 || *cnt2 != 6 {
 		k.Violate("reinject/local-name-now-injected", fmt.Sprintf("`Cnt = 5  Cnt2 := 6` ran with Cnt, Cnt2 injected as pointers (they were rule locals in the earlier calls): the host sees %d, %d", *cnt, *cnt2), map[string]interface{}{"rule_text": text})
 	}
+	// two DIFFERENT struct types with the same name and another field layout, injected one after the other
+	// under one name: fields are found by name in the object that is injected now
+	for step, tw := range []interface{}{mkTwinA(base), mkTwinB(base + 5), mkTwinA(base + 9)} {
+		dc.Add("Twin", tw)
+		v := base + int64([]int{0, 5, 9}[step])
+		check(fmt.Sprintf("same-type-name-other-layout-%d", step), map[string]int64{"fn": (base + 2) * 10, "t": (base + 2) * 100, "tw": v + 1})
+		tv := reflect.ValueOf(tw).Elem()
+		if a, b := tv.FieldByName("A").Int(), tv.FieldByName("B").Int(); a != v+100 || b != v+1 {
+			k.Violate("reinject/same-type-name-other-layout", fmt.Sprintf("`Twin.A = Twin.A + 100` on an object of type %s with A=%d B=%d: the host sees A=%d B=%d", tv.Type(), v, v+1, a, b), map[string]interface{}{"rule_text": text})
+		}
+	}
+	dc.Del("Twin")
 	*cnt, *cnt2 = 0, 0
 	dc.Del("Cnt", "Cnt2")
 	check("injected-name-local-again", map[string]int64{"fn": (base + 2) * 10, "t": (base + 2) * 100})
